@@ -37,7 +37,7 @@ Classes == {"add_inf_inf", "add_inf_p", "add_p_inf", "add_p_p", "add_p_negp", "a
             "dec_offcurve", "dec_nonresidue", "dec_hybrid", "dec_recv_uninit", "dec_recv_kept", "dec_fresh", "coords_ok", "coords_bad",
             "rec_ok_low", "rec_ok_high", "rec_overflow", "rec_bad_id", "rec_nonresidue",
             "msm_len0", "msm_len1", "msm_len2", "msm_len3plus", "msm_long", "msm_zero_scalar", "msm_inf_point", "msm_dup",
-            "msm_inverse", "msm_alias", "msm_mismatch", "msm_cancel", "dsm", "dsm_only_base", "dsm_only_var", "dsm_cancel", "dsm_window_meet", "mul_seq", "life_step", "life_reject", "life_inf", "life_ctrl"}
+            "msm_inverse", "msm_alias", "msm_alias_far", "msm_mismatch", "msm_cancel", "dsm", "dsm_only_base", "dsm_only_var", "dsm_cancel", "dsm_window_meet", "mul_seq", "life_step", "life_reject", "life_inf", "life_ctrl"}
 
 (* ---- classification helpers ---- *)
 AddClass(a, b, ph, qh) ==
@@ -231,7 +231,7 @@ Verdict(ev) ==
             \cup (IF \E i \in 1..ns : IsInf(ps[i]) THEN {"msm_inf_point"} ELSE {})
             \cup (IF \E i, j \in 1..ns : i < j /\ ~IsInf(ps[i]) /\ PEq(ps[i], ps[j]) THEN {"msm_dup"} ELSE {})
             \cup (IF \E i, j \in 1..ns : i < j /\ ~IsInf(ps[i]) /\ PEq(ps[i], PNeg(ps[j])) THEN {"msm_inverse"} ELSE {})
-            \cup (IF ev.recv > 0 THEN {"msm_alias"} ELSE {})
+            \cup (IF ev.recv > 0 THEN {"msm_alias"} ELSE {}) \cup (IF ev.recv > 64 THEN {"msm_alias_far"} ELSE {})
             \cup (IF ns >= 2 /\ IsInf(want) THEN {"msm_cancel"} ELSE {}) >>
     [] ev.ev = "dsm" ->
          LET a == AffOf(ev.p) IN
